@@ -556,6 +556,9 @@ func Explore(ld *Loaded, h Harness, cfg *Config, opts ExploreOpts) *Report {
 					rep.Scripts = append(rep.Scripts, solver.Script())
 				}
 				stack = append(stack, pending...)
+				if os.Getenv("SYMGO_DEBUG") != "" && rep.Paths%200 == 0 {
+					fmt.Fprintf(os.Stderr, "[%s] paths=%d pending=%d ends=%v instr=%d t=%.0fs\n", h.Func, rep.Paths, len(stack), rep.PathsByEnd, rep.Instrs, time.Since(t0).Seconds())
+				}
 				if opts.MaxPaths > 0 && rep.Paths >= opts.MaxPaths && (len(stack) > 0 || active > 0) {
 					rep.Incomplete = fmt.Sprintf("path budget %d exhausted with %d prefixes pending", opts.MaxPaths, len(stack))
 					stop.Store(true)
